@@ -55,9 +55,23 @@ DESC = {
  "S49": ("C13", "`start_rowid` binary-searches the block index (`partition_point`) instead of walking it", "duplicate keys whose run straddles a block boundary, inclusive lower bound equal to that key"),
  "S50": ("C15", "an operator's Err item is sent with `try_broadcast` (dropped when the channel is full)", "an error raised when the consumer is >= 16 chunks behind"),
  "S51": ("C18", "short-read loop zero-fills a block past EOF; the checksum type is read from the (zero) footer", "a .col file truncated at a block boundary (or to 0 bytes)"),
+ "S53": ("C02", "`can_filter_left_input` also accepts anti joins: a left-only conjunct of an anti join condition becomes a filter on the left input", "NOT EXISTS whose condition has a top-level conjunct over outer columns only, and an outer row failing it"),
+ "S54": ("C05", "merge-iterator sift-down stops as soon as the element is <= its left child", ">= 3 row-sets of a primary-key table with overlapping key ranges"),
+ "S55": ("C06", "RLE nullable VARCHAR blocks size the inner blob iterator by row count instead of run count", "nullable VARCHAR column, run-length encoding, a run longer than one row"),
+ "S56": ("C11", "nested-loop semi/anti join: `exists = …` instead of `exists |= …` over the right input's chunks", "ANTI join run by the nested-loop implementation, right input in >= 2 chunks, a match only in an earlier chunk"),
+ "S57": ("C12", "merge-iterator sift-down never compares a right child in the last heap slot", ">= 3 live row-sets of a primary-key table with overlapping key ranges"),
+ "S58": ("C14", "AND kernel 'no-NULL fast path' guarded by `||` instead of `&&`", "one AND operand NULL-free over the batch, the other NULL on a row where the first is FALSE"),
+ "S59": ("C16", "PRIMARY KEY implies NOT NULL only for the column option, not for the table constraint `PRIMARY KEY (a, b)`", "key declared by table constraint without NOT NULL, NULL written into a key column"),
+ "S60": ("C17", "`hash-join-on-one-eq` accepts a key that depends on its own side instead of rejecting keys that depend on the other side", "join whose whole condition is one equality with one side mixing columns of both inputs (`a = c + b`)"),
+ "S61": ("C19", "`normalize_join_key` turns integer keys into DOUBLE", "equi-join / IN subquery on BIGINT values above 2^53 that round to the same double"),
+ "S62": ("C20", "COPY FROM trims every field before the NULL test and before storing it", "a text value that starts or ends with white space, or is white space only"),
  "S52": ("C10", "reverse of repair db497b9: the binder fetches the table by id with unwrap() after resolving its name", "DROP TABLE by another session between the binder's two catalog lookups (multi-thread runtime)"),
 }
 STRENGTHENED = {
+ "S53": "missed by the first C02 / C01 (extra conjuncts of EXISTS subqueries referred to the inner table only); caught after EXISTS / NOT EXISTS conditions may carry conjuncts over the outer row only or over both",
+ "S59": "missed by the first C16 (its INSERT leg declared no primary keys at all); caught after tables get column-option and table-constraint (also composite) primary keys",
+ "S60": "needed the `join_mixed_key` shape (whole ON condition = one equality with a side mixing both inputs) in the generator",
+ "S61": "missed by the first C19 (no two BIGINT values above 2^53 that round to the same double); caught after such neighbours were added to the pool and `a IN (SELECT a …)` to the coherence queries",
  "S36": "not caught until the pruning defect behind the open column-not-found finding was repaired (5f490d5, b6fa5f4) and the signature split: a column-not-found panic under an *unresolved* subquery form is a consequence of that form, one after a *successful* unnesting is its own class (`…:unnested-subquery`)",
  "S42": "missed by the first C03 (every reopen was followed by an INSERT, tables were rarely emptied; C07 caught it); caught after the empty-out episode (several row-sets, DELETE all, compaction passes, two silent reopens, INSERT, check) was added",
  "S43": "missed by the first C04 (a recovered state was probed with new statements but never opened a second time); caught after every recovered state is shut down and opened again",
